@@ -140,6 +140,8 @@ class ConcreteChecker:
         self.finfo = program.function(cname)
 
     def _exec(self):
+        from . import ops as _ops
+        _ops.REAL_TOL = 1e-12 if 'reals' in (self.c.theories or ()) else 0.0
         ex = Exec(self.program, 'run')
         ex.concrete_spec = True
         ex.frames = [Frame(self.finfo, self.c)]
@@ -177,13 +179,13 @@ class ConcreteChecker:
         walk(jargs)
         return (-1, min(m * (m + 1) // 2 + 2, 40) if m <= 8 else m + 2)
 
-    def check_requires(self, jargs):
+    def check_requires(self, jargs, case=None):
         ex = self._exec()
         st, args = self.build_state(jargs)
         ex.quant_range = self.quant_range(jargs)
         for g, text in self.c.bind.items():
             ex.frame.ghost[g] = ex.eval_spec(text, st)
-        for r in self.c.requires:
+        for r in list(self.c.requires) + list((case or {}).get('requires', [])):
             try:
                 v = truth(ex.eval_spec(r, st))
             except PathEnd:
@@ -196,7 +198,7 @@ class ConcreteChecker:
                     return False
         return True
 
-    def check_ensures(self, jargs, outcome):
+    def check_ensures(self, jargs, outcome, case=None):
         """Returns list of violated postconditions (text) for a native outcome."""
         ex = self._exec()
         st, args = self.build_state(jargs)
@@ -216,7 +218,7 @@ class ConcreteChecker:
             st.vars[k] = from_json(v, st, 'param', k)
         result = from_json(outcome['result'], st)
         bad = []
-        for text in self.c.ensures:
+        for text in list(self.c.ensures) + list((case or {}).get('ensures', [])):
             try:
                 v = truth(ex.eval_spec(text, st, env={'result': result, '__exc__': None}, old_state=old))
             except PathEnd:
@@ -229,6 +231,10 @@ class ConcreteChecker:
                     v = z3.simplify(v)
                     if z3.is_true(v):
                         continue
+                    if not z3.is_false(v):
+                        # a spec function without a concrete evaluator: undecided, never a violation
+                        bad.append('cannot evaluate %r concretely: residual term' % text)
+                        continue
                 bad.append(text)
         # frame: arguments must be unchanged unless listed in assigns
         for k, v in outcome.get('args_after', {}).items():
@@ -239,6 +245,11 @@ class ConcreteChecker:
             if _norm(v) != _norm(jargs[k]):
                 bad.append('frame: argument %s modified' % k)
         return bad
+
+
+def definite(bad):
+    """the violated clauses among check_ensures' answers (drops the ones that could not be evaluated)"""
+    return [b for b in (bad or []) if not b.startswith('cannot evaluate')]
 
 
 def _norm(v):
@@ -304,11 +315,38 @@ def small_values(desc, rng, bound):
     if isinstance(desc, dict):
         keys = list(desc)
         doms = [small_values(desc[k], rng, bound) for k in keys]
+        total = 1
+        for d in doms:
+            total *= len(d)
         out = []
-        for combo in itertools.product(*doms):
-            out.append({'d': dict(zip(keys, combo))})
-            if len(out) > 200:
-                break
+        if total <= 200:
+            for combo in itertools.product(*doms):
+                out.append({'d': dict(zip(keys, combo))})
+        else:
+            # all-defaults first, then random combinations (a lexicographic prefix would pin the first keys)
+            out.append({'d': {k: d[0] for k, d in zip(keys, doms)}})
+            for _ in range(200):
+                out.append({'d': {k: rng.choice(d) for k, d in zip(keys, doms)}})
+        return out
+    if isinstance(desc, tuple) and desc[0] == 'tuple':
+        doms = [small_values(d, rng, bound) for d in desc[1:]]
+        total = 1
+        for d in doms:
+            total *= len(d)
+        if total <= 300:
+            return [{'t': list(combo)} for combo in itertools.product(*doms)]
+        return [{'t': [rng.choice(d) for d in doms]} for _ in range(300)]
+    if desc == 'nonneg_pair':
+        vals = [0.0, 0.5, 1.0, 2.0, 3.0, 4.0]
+        return [{'n': [{'f': float(a).hex()}, {'f': float(b).hex()}], 'dtype': 'float64'} for a in vals for b in vals]
+    if desc == 'real':
+        return [{'f': float(x).hex()} for x in (0.5, 1.0, 2.0, 3.0, 0.25, -1.0)]
+    if desc == 'series_nd':
+        out = []
+        for n in range(1, bound + 2):
+            for nd in (1, 2, 3):
+                out.append({'n': [[{'f': float(rng.choice([0, 1, -1, 2, 0.5, 3, -2.5])).hex()} for _ in range(nd)]
+                                  for _ in range(n)], 'dtype': 'float64', 'shape': [n, nd]})
         return out
     if desc == 'array:val':
         return [{'a': [{'f': float(k + 1).hex()} for k in range(n)]} for n in range(0, bound + 4)]
